@@ -18,22 +18,22 @@ Open Scope N_scope.
     world state is the fold of block execution along the main branch; a block that does not
     execute to its header root (an invalid block) is never on the main chain. *)
 Theorem C07_state_is_fold_of_branch :
-  forall (apply : sroot -> block -> option sroot) (orphan_cap : nat) (spent : sroot -> txid -> bool),
+  forall (apply : sroot -> block -> option sroot) (orphan_cap : nat) (f27 : bool) (spent : sroot -> txid -> bool),
   (forall r b r', apply r b = Some r' -> NoDup (txs b) /\ forall t, In t (txs b) -> spent r t = false) ->
   (forall r b r' t, apply r b = Some r' -> spent r' t = spent r t || mem t (txs b)) ->
   forall (U : block -> Prop), (forall a b, U a -> U b -> hash_field a = hash_field b -> a = b) ->
   forall (g : block),
   forall (l : list (N * block)) n, Inv apply spent U g n ->
-  (forall x, In x l -> U (snd x) /\ no (snd x) <> 0) ->
-  let n' := history apply true orphan_cap n l in
+  (forall x, In x l -> U (snd x) /\ (f27 = true \/ no (snd x) <> 0)) ->
+  let n' := history apply true f27 orphan_cap n l in
   sdb_root n' = root (best n') /\
   mainb (dur n') 0 = Some g /\
   forall k, k < no (best n') -> exists p b,
     mainb (dur n') k = Some p /\ mainb (dur n') (k + 1) = Some b /\
     prev b = hash_field p /\ apply (root p) b = Some (root b).
 Proof.
-  intros apply cap spent Hf Hs U Hu g l n I H n'.
-  pose proof (history_inv apply cap spent Hf Hs U Hu g l n I H) as I'.
+  intros apply cap f27 spent Hf Hs U Hu g l n I H n'.
+  pose proof (history_inv apply cap f27 spent Hf Hs U Hu g l n I H) as I'.
   split; [exact (i_sdb _ _ _ _ _ I')|]. split; [exact (proj1 (i_gen _ _ _ _ _ I'))|]. exact (i_path _ _ _ _ _ I').
 Qed.
 Print Assumptions C07_state_is_fold_of_branch.
@@ -75,12 +75,12 @@ Print Assumptions C07_reorg_switches_to_longer_available_branch.
     branch and no parked orphan is waiting for it, i.e. in-order delivery of the tip): the node
     switches to the branch and its state is the branch's state. *)
 Theorem C07_best_is_longest_available_partial :
-  forall (apply : sroot -> block -> option sroot) (orphan_cap : nat) (spent : sroot -> txid -> bool),
+  forall (apply : sroot -> block -> option sroot) (orphan_cap : nat) (f27 : bool) (spent : sroot -> txid -> bool),
   (forall r b r', apply r b = Some r' -> NoDup (txs b) /\ forall t, In t (txs b) -> spent r t = false) ->
   (forall r b r' t, apply r b = Some r' -> spent r' t = spent r t || mem t (txs b)) ->
   forall (U : block -> Prop), (forall a b, U a -> U b -> hash_field a = hash_field b -> a = b) ->
   forall (g : block),
-  forall n b f L, Inv apply spent U g n -> U b -> no b <> 0 ->
+  forall n b f L, Inv apply spent U g n -> U b -> (f27 = true \/ no b <> 0) ->
   mem (hash_field b) (bad n) = false -> get_block (dur n) (hash_field b) = None ->
   find_orphan (orphans n) (hash_field b) = None ->
   mainb (dur n) (no f) = Some f -> no f < no (best n) -> lib n <= no f ->
@@ -88,7 +88,7 @@ Theorem C07_best_is_longest_available_partial :
   (forall c, In c L -> get_block (dur n) (hash_field c) = Some c) ->
   (forall c m, In c L -> no c <= no (best n) -> mainb (dur n) (no c) = Some m -> hash_field c <> hash_field m) ->
   valid_chain apply (root f) (L ++ [b]) -> no (best n) < no b ->
-  let r := add_block apply true orphan_cap n b in
+  let r := add_block apply true f27 orphan_cap n b in
   snd r = ROk /\ best (fst r) = b /\ sdb_root (fst r) = root b /\ Inv apply spent U g (fst r).
 Proof. intros; eapply best_is_longest_available_partial; eauto. Qed.
 Print Assumptions C07_best_is_longest_available_partial.
@@ -102,33 +102,33 @@ Theorem C07_best_is_longest_available_refuted :
     (forall r b r' t, apply r b = Some r' -> spent r' t = spent r t || mem t (txs b)) /\
     (forall a b, U a -> U b -> hash_field a = hash_field b -> a = b) /\
     Inv apply spent U g (init_node g) /\ (forall x, In x l -> U (snd x) /\ no (snd x) <> 0) /\
-    ~ Longest apply (history apply true 100 (init_node g) l).
+    ~ Longest apply (history apply true true 100 (init_node g) l).
 Proof. exact best_is_longest_available_refuted. Qed.
 Print Assumptions C07_best_is_longest_available_refuted.
 
 (** An arrival changes the best block only to a strictly higher one: shorter or equal branches never
     displace, ties keep the incumbent. *)
 Theorem C07_no_displace_equal_or_shorter :
-  forall (apply : sroot -> block -> option sroot) (orphan_cap : nat) (spent : sroot -> txid -> bool),
+  forall (apply : sroot -> block -> option sroot) (orphan_cap : nat) (f27 : bool) (spent : sroot -> txid -> bool),
   (forall r b r', apply r b = Some r' -> NoDup (txs b) /\ forall t, In t (txs b) -> spent r t = false) ->
   (forall r b r' t, apply r b = Some r' -> spent r' t = spent r t || mem t (txs b)) ->
   forall (U : block -> Prop), (forall a b, U a -> U b -> hash_field a = hash_field b -> a = b) ->
   forall (g : block),
-  forall n b, Inv apply spent U g n -> U b -> no b <> 0 ->
-  let n' := fst (add_block apply true orphan_cap n b) in
+  forall n b, Inv apply spent U g n -> U b -> (f27 = true \/ no b <> 0) ->
+  let n' := fst (add_block apply true f27 orphan_cap n b) in
   best n' = best n \/ no (best n) < no (best n').
 Proof. intros; eapply no_displace_equal_or_shorter; eauto. Qed.
 Print Assumptions C07_no_displace_equal_or_shorter.
 
 (** No arrival changes the main chain at or below the LIB reported by consensus. *)
 Theorem C07_below_lib_never_displaces :
-  forall (apply : sroot -> block -> option sroot) (orphan_cap : nat) (spent : sroot -> txid -> bool),
+  forall (apply : sroot -> block -> option sroot) (orphan_cap : nat) (f27 : bool) (spent : sroot -> txid -> bool),
   (forall r b r', apply r b = Some r' -> NoDup (txs b) /\ forall t, In t (txs b) -> spent r t = false) ->
   (forall r b r' t, apply r b = Some r' -> spent r' t = spent r t || mem t (txs b)) ->
   forall (U : block -> Prop), (forall a b, U a -> U b -> hash_field a = hash_field b -> a = b) ->
   forall (g : block),
-  forall n b, Inv apply spent U g n -> U b -> no b <> 0 ->
-  let n' := fst (add_block apply true orphan_cap n b) in
+  forall n b, Inv apply spent U g n -> U b -> (f27 = true \/ no b <> 0) ->
+  let n' := fst (add_block apply true f27 orphan_cap n b) in
   forall k, k <= lib n -> k <= no (best n) -> mainb (dur n') k = mainb (dur n) k.
 Proof. intros; eapply below_lib_never_displaces; eauto. Qed.
 Print Assumptions C07_below_lib_never_displaces.
@@ -136,13 +136,13 @@ Print Assumptions C07_below_lib_never_displaces.
 (** The MemPoolPut messages of an arrival are exactly the transactions confirmed before and not
     confirmed after it (txs(old branch) \ txs(new branch)). *)
 Theorem C07_returned_txs :
-  forall (apply : sroot -> block -> option sroot) (orphan_cap : nat) (spent : sroot -> txid -> bool),
+  forall (apply : sroot -> block -> option sroot) (orphan_cap : nat) (f27 : bool) (spent : sroot -> txid -> bool),
   (forall r b r', apply r b = Some r' -> NoDup (txs b) /\ forall t, In t (txs b) -> spent r t = false) ->
   (forall r b r' t, apply r b = Some r' -> spent r' t = spent r t || mem t (txs b)) ->
   forall (U : block -> Prop), (forall a b, U a -> U b -> hash_field a = hash_field b -> a = b) ->
   forall (g : block),
-  forall n b, Inv apply spent U g n -> U b -> no b <> 0 ->
-  let n' := fst (add_block apply true orphan_cap n b) in
+  forall n b, Inv apply spent U g n -> U b -> (f27 = true \/ no b <> 0) ->
+  let n' := fst (add_block apply true f27 orphan_cap n b) in
   exists new, evs n' = new ++ evs n /\
     forall t, In t (puts_of new) <-> (confirmed n t /\ ~ confirmed n' t).
 Proof. intros; eapply returned_txs; eauto. Qed.
